@@ -73,11 +73,13 @@ RdW(Rd(_), loc, k, bits) == IF bits = 8 THEN Rd(loc.ea) ELSE Rd(loc.ea) + 256 * 
 WrW(loc, k, v, bits) == IF bits = 8 THEN << <<loc.ea, Lo(v)>> >>
                         ELSE << <<loc.ea, Lo(v)>>, <<Addr2(loc, k), Hi(v)>> >>
 
-\* ---- stack (native mode): push writes 00:S then decrements; pull increments then reads 00:S
-Push8(s, v)   == [s |-> W16(s.S - 1), wr |-> << <<s.S, v>> >>]
-Push16S(sp, v) == << <<sp, Hi(v)>>, <<W16(sp - 1), Lo(v)>> >>            \* high byte first
-Pull8(Rd(_), sp)  == Rd(W16(sp + 1))
-Pull16(Rd(_), sp) == Rd(W16(sp + 1)) + 256 * Rd(W16(sp + 2))
+\* ---- stack: push writes 00:S then decrements; pull increments then reads 00:S.
+\* Native mode (E = 0, property C01): S is a 16-bit pointer into bank 0.
+\* Emulation mode (E = 1) is specified AS IMPLEMENTED by both interpreters (outside every listed property; the named
+\* differences from the WDC model are collected in DESIGN.md): after every pushed or pulled byte the pointer is forced
+\* to $10xx -- "emu_stack_page10"; the WDC model keeps the emulation-mode stack in page $01.
+SDe(sp, e) == IF e = 1 THEN 4096 + ((sp + 255) % 256) ELSE W16(sp - 1)
+SUe(sp, e) == IF e = 1 THEN 4096 + ((sp + 1) % 256) ELSE W16(sp + 1)
 
 \* ---- width-dependent flag rule: setting X clears the index high bytes
 ApplyP(s, p) == LET x8 == Bit(p, FX) = 1 IN
@@ -153,6 +155,18 @@ Step(Rd(_), s, dv) ==
       rel8  == W16(s.PC + 2 + (IF o1 < 128 THEN o1 ELSE o1 - 256) + 65536)
       rel16 == W16(s.PC + 3 + a16)
       Branch(cond) == Res(IF cond THEN [s EXCEPT !.PC = rel8] ELSE nx, <<>>, {})
+      em  == s.E = 1
+      SD(sp) == SDe(sp, s.E)
+      s1 == SD(s.S)  s2 == SD(s1)  s3 == SD(s2)  s4 == SD(s3)          \* S after 1..4 pushed bytes
+      u1 == SUe(s.S, s.E)  u2 == SUe(u1, s.E)  u3 == SUe(u2, s.E)  u4 == SUe(u3, s.E)   \* addresses of 1..4 pulled bytes
+      PS1(a) == << <<s.S, a>> >>
+      PS2(a, b) == << <<s.S, a>>, <<s1, b>> >>
+      PS3(a, b, c) == << <<s.S, a>>, <<s1, b>>, <<s2, c>> >>
+      PS4(a, b, c, d) == << <<s.S, a>>, <<s1, b>>, <<s2, c>>, <<s3, d>> >>
+      PW(v) == PS2(Hi(v), Lo(v))                                         \* a 16-bit push: high byte first
+      Pull8 == Rd(u1)
+      Pull16 == Rd(u1) + 256 * Rd(u2)
+      ApplyPE(st, p) == ApplyP(st, IF em THEN p | 48 ELSE p)             \* emulation mode: M and X stay 1
   IN
   CASE mn \in {"ora", "and", "eor", "lda"} ->
          LET v == RdW(Rd, loc, k, mbits)
@@ -220,8 +234,8 @@ Step(Rd(_), s, dv) ==
     [] mn = "txy" -> Res([nx EXCEPT !.Y = s.X, !.P = SetNZ(s.P, s.X, xbits)], <<>>, {})
     [] mn = "tyx" -> Res([nx EXCEPT !.X = s.Y, !.P = SetNZ(s.P, s.Y, xbits)], <<>>, {})
     [] mn = "tsx" -> LET r == IF x8 THEN Lo(s.S) ELSE s.S IN Res([nx EXCEPT !.X = r, !.P = SetNZ(s.P, r, xbits)], <<>>, {})
-    [] mn = "txs" -> Res([nx EXCEPT !.S = s.X], <<>>, {})
-    [] mn = "tcs" -> Res([nx EXCEPT !.S = s.C], <<>>, {})
+    [] mn = "txs" -> Res([nx EXCEPT !.S = IF em THEN 256 + Lo(s.X) ELSE s.X], <<>>, {})
+    [] mn = "tcs" -> Res([nx EXCEPT !.S = IF em THEN 256 + Lo(s.C) ELSE s.C], <<>>, {})
     [] mn = "tsc" -> Res([nx EXCEPT !.C = s.S, !.P = SetNZ(s.P, s.S, 16)], <<>>, {})
     [] mn = "tcd" -> Res([nx EXCEPT !.D = s.C, !.P = SetNZ(s.P, s.C, 16)], <<>>, {})
     [] mn = "tdc" -> Res([nx EXCEPT !.C = s.D, !.P = SetNZ(s.P, s.D, 16)], <<>>, {})
@@ -234,10 +248,10 @@ Step(Rd(_), s, dv) ==
     [] mn = "cld" -> Res([nx EXCEPT !.P = SetF(s.P, FD, 0)], <<>>, {})
     [] mn = "sed" -> Res([nx EXCEPT !.P = SetF(s.P, FD, 1)], <<>>, {})
     [] mn = "clv" -> Res([nx EXCEPT !.P = SetF(s.P, FV, 0)], <<>>, {})
-    [] mn = "rep" -> Res(ApplyP(nx, s.P & (255 - o1)), <<>>, {})
-    [] mn = "sep" -> Res(ApplyP(nx, s.P | o1), <<>>, {})
+    [] mn = "rep" -> Res(ApplyPE(nx, s.P & (255 - o1)), <<>>, {})
+    [] mn = "sep" -> Res(ApplyPE(nx, s.P | o1), <<>>, {})
     [] mn = "xce" ->
-         IF cf = 0 THEN Res([nx EXCEPT !.P = SetF(s.P, FC, s.E)], <<>>, {})       \* stays native (E was 0): C := 0
+         IF cf = 0 THEN Res([nx EXCEPT !.P = SetF(s.P, FC, s.E), !.E = 0], <<>>, {})   \* C := old E, native from now on
          ELSE Res([ApplyP(nx, SetF(s.P | 48, FC, s.E)) EXCEPT !.E = 1, !.S = 256 + Lo(s.S)], <<>>, {})
     \* ---- branches, jumps
     [] mn = "bpl" -> Branch(Bit(s.P, FN) = 0)
@@ -262,38 +276,38 @@ Step(Rd(_), s, dv) ==
              tgt == IF mode = "abs" THEN a16 ELSE R16k(Rd, k, ptr)
              \* (a,X): the return address is pushed before the pointer is read; a pointer lying in the two bytes
              \* just pushed (bank 0) is an order-of-access corner the programming model leaves open
-             overlap == mode = "iax" /\ k = 0 /\ ({ptr, W16(ptr + 1)} \cap {s.S, W16(s.S - 1)} # {})
-         IN Res([s EXCEPT !.PC = tgt, !.S = W16(s.S - 2)], Push16S(s.S, ret), IF overlap THEN {"PC"} ELSE {})
+             overlap == mode = "iax" /\ k = 0 /\ ({ptr, W16(ptr + 1)} \cap {s.S, s1} # {})
+         IN Res([s EXCEPT !.PC = tgt, !.S = s2], PW(ret), IF overlap THEN {"PC"} ELSE {})
     [] mn = "jsl" ->
-         Res([s EXCEPT !.PC = a16, !.K = o3, !.S = W16(s.S - 3)],
-             << <<s.S, k>> >> \o Push16S(W16(s.S - 1), W16(s.PC + 3)), {})
-    [] mn = "rts" -> Res([s EXCEPT !.PC = W16(Pull16(Rd, s.S) + 1), !.S = W16(s.S + 2)], <<>>, {})
-    [] mn = "rtl" -> Res([s EXCEPT !.PC = W16(Pull16(Rd, s.S) + 1), !.K = Rd(W16(s.S + 3)), !.S = W16(s.S + 3)], <<>>, {})
-    [] mn = "rti" -> Res([ApplyP(s, Rd(W16(s.S + 1))) EXCEPT !.PC = Rd(W16(s.S + 2)) + 256 * Rd(W16(s.S + 3)),
-                                                           !.K = Rd(W16(s.S + 4)), !.S = W16(s.S + 4)], <<>>, {})
+         LET ret == W16(s.PC + 3) IN
+         Res([s EXCEPT !.PC = a16, !.K = o3, !.S = s3], PS3(k, Hi(ret), Lo(ret)), {})
+    [] mn = "rts" -> Res([s EXCEPT !.PC = W16(Pull16 + 1), !.S = u2], <<>>, {})
+    [] mn = "rtl" -> Res([s EXCEPT !.PC = W16(Pull16 + 1), !.K = Rd(u3), !.S = u3], <<>>, {})
+    [] mn = "rti" -> IF em THEN Res([ApplyPE(s, Rd(u1)) EXCEPT !.PC = Rd(u2) + 256 * Rd(u3), !.S = u3], <<>>, {})   \* no bank byte
+                     ELSE Res([ApplyP(s, Rd(u1)) EXCEPT !.PC = Rd(u2) + 256 * Rd(u3), !.K = Rd(u4), !.S = u4], <<>>, {})
     \* ---- stack
-    [] mn = "pha" -> IF m8 THEN Res([nx EXCEPT !.S = W16(s.S - 1)], << <<s.S, Lo(s.C)>> >>, {})
-                     ELSE Res([nx EXCEPT !.S = W16(s.S - 2)], Push16S(s.S, s.C), {})
+    [] mn = "pha" -> IF m8 THEN Res([nx EXCEPT !.S = s1], PS1(Lo(s.C)), {})
+                     ELSE Res([nx EXCEPT !.S = s2], PW(s.C), {})
     [] mn \in {"phx", "phy"} ->
          LET v == IF mn = "phx" THEN s.X ELSE s.Y IN
-         IF x8 THEN Res([nx EXCEPT !.S = W16(s.S - 1)], << <<s.S, Lo(v)>> >>, {})
-         ELSE Res([nx EXCEPT !.S = W16(s.S - 2)], Push16S(s.S, v), {})
-    [] mn = "php" -> Res([nx EXCEPT !.S = W16(s.S - 1)], << <<s.S, s.P>> >>, {})
-    [] mn = "phb" -> Res([nx EXCEPT !.S = W16(s.S - 1)], << <<s.S, s.DBR>> >>, {})
-    [] mn = "phk" -> Res([nx EXCEPT !.S = W16(s.S - 1)], << <<s.S, s.K>> >>, {})
-    [] mn = "phd" -> Res([nx EXCEPT !.S = W16(s.S - 2)], Push16S(s.S, s.D), {})
-    [] mn = "pea" -> Res([nx EXCEPT !.S = W16(s.S - 2)], Push16S(s.S, a16), {})
-    [] mn = "pei" -> Res([nx EXCEPT !.S = W16(s.S - 2)], Push16S(s.S, R16z(Rd, W16(s.D + o1))), {})
-    [] mn = "per" -> Res([nx EXCEPT !.S = W16(s.S - 2)], Push16S(s.S, rel16), {})
-    [] mn = "pla" -> LET v == IF m8 THEN Pull8(Rd, s.S) ELSE Pull16(Rd, s.S) IN
-                     Res([nx EXCEPT !.C = SetA(s, v, m8), !.P = SetNZ(s.P, v, mbits), !.S = W16(s.S + (mbits \div 8))], <<>>, {})
+         IF x8 THEN Res([nx EXCEPT !.S = s1], PS1(Lo(v)), {})
+         ELSE Res([nx EXCEPT !.S = s2], PW(v), {})
+    [] mn = "php" -> Res([nx EXCEPT !.S = s1], PS1(s.P), {})
+    [] mn = "phb" -> Res([nx EXCEPT !.S = s1], PS1(s.DBR), {})
+    [] mn = "phk" -> Res([nx EXCEPT !.S = s1], PS1(s.K), {})
+    [] mn = "phd" -> Res([nx EXCEPT !.S = s2], PW(s.D), {})
+    [] mn = "pea" -> Res([nx EXCEPT !.S = s2], PW(a16), {})
+    [] mn = "pei" -> Res([nx EXCEPT !.S = s2], PW(R16z(Rd, W16(s.D + o1))), {})
+    [] mn = "per" -> Res([nx EXCEPT !.S = s2], PW(rel16), {})
+    [] mn = "pla" -> LET v == IF m8 THEN Pull8 ELSE Pull16 IN
+                     Res([nx EXCEPT !.C = SetA(s, v, m8), !.P = SetNZ(s.P, v, mbits), !.S = IF m8 THEN u1 ELSE u2], <<>>, {})
     [] mn \in {"plx", "ply"} ->
-         LET v == IF x8 THEN Pull8(Rd, s.S) ELSE Pull16(Rd, s.S)
-             n1 == [nx EXCEPT !.P = SetNZ(s.P, v, xbits), !.S = W16(s.S + (xbits \div 8))]
+         LET v == IF x8 THEN Pull8 ELSE Pull16
+             n1 == [nx EXCEPT !.P = SetNZ(s.P, v, xbits), !.S = IF x8 THEN u1 ELSE u2]
          IN Res(IF mn = "plx" THEN [n1 EXCEPT !.X = v] ELSE [n1 EXCEPT !.Y = v], <<>>, {})
-    [] mn = "plp" -> Res([ApplyP(nx, Pull8(Rd, s.S)) EXCEPT !.S = W16(s.S + 1)], <<>>, {})
-    [] mn = "plb" -> LET v == Pull8(Rd, s.S) IN Res([nx EXCEPT !.DBR = v, !.P = SetNZ(s.P, v, 8), !.S = W16(s.S + 1)], <<>>, {})
-    [] mn = "pld" -> LET v == Pull16(Rd, s.S) IN Res([nx EXCEPT !.D = v, !.P = SetNZ(s.P, v, 16), !.S = W16(s.S + 2)], <<>>, {})
+    [] mn = "plp" -> Res([ApplyPE(nx, Pull8) EXCEPT !.S = u1], <<>>, {})
+    [] mn = "plb" -> LET v == Pull8 IN Res([nx EXCEPT !.DBR = v, !.P = SetNZ(s.P, v, 8), !.S = u1], <<>>, {})
+    [] mn = "pld" -> LET v == Pull16 IN Res([nx EXCEPT !.D = v, !.P = SetNZ(s.P, v, 16), !.S = u2], <<>>, {})
     \* ---- block moves: one byte per step; the opcode is re-executed until C wraps to $FFFF
     [] mn \in {"mvn", "mvp"} ->
          LET dst == o1  src == o2
@@ -303,18 +317,33 @@ Step(Rd(_), s, dv) ==
          IN Res([s EXCEPT !.X = step(s.X), !.Y = step(s.Y), !.C = c2, !.DBR = dst,
                           !.PC = IF c2 = 65535 THEN npc ELSE s.PC],
                 << <<At(dst, s.Y), Rd(At(src, s.X))>> >>, {})
-    \* ---- software interrupts (native): push K, PC+2, P; then D := 0, I := 1, K := 0, PC := vector
+    \* ---- software interrupts: native: push K, PC+2, P (vectors $00FFE6 / $00FFE4); emulation (as implemented): push
+    \* PC+2, P (BRK with the B bit) (vectors $00FFFE / $00FFF4); then D := 0, I := 1, K := 0, PC := vector
     [] mn \in {"brk", "cop"} ->
-         LET vec == IF mn = "brk" THEN 65510 ELSE 65508           \* $00FFE6 / $00FFE4
+         LET vec == IF em THEN (IF mn = "brk" THEN 65534 ELSE 65524) ELSE (IF mn = "brk" THEN 65510 ELSE 65508)
              ret == W16(s.PC + 2)
-             wr == << <<s.S, k>> >> \o Push16S(W16(s.S - 1), ret) \o << <<W16(s.S - 3), s.P>> >>
-             \* the vector is fetched AFTER the pushes: a stack that runs over $00FFE4-$00FFE7 is read back
-             RdA(a) == IF \E i \in 1..4 : wr[i][1] = a THEN wr[CHOOSE i \in 1..4 : wr[i][1] = a][2] ELSE Rd(a)
-         IN Res([s EXCEPT !.PC = RdA(vec) + 256 * RdA(vec + 1), !.K = 0, !.S = W16(s.S - 4),
+             wr == IF em THEN PS3(Hi(ret), Lo(ret), IF mn = "brk" THEN s.P | 16 ELSE s.P)
+                         ELSE PS4(k, Hi(ret), Lo(ret), s.P)
+             \* the vector is fetched AFTER the pushes: a stack that runs over the vector is read back
+             RdA(a) == IF \E i \in 1..Len(wr) : wr[i][1] = a
+                       THEN wr[CHOOSE i \in 1..Len(wr) : wr[i][1] = a /\ \A j \in 1..Len(wr) : wr[j][1] = a => j <= i][2] ELSE Rd(a)
+         IN Res([s EXCEPT !.PC = RdA(vec) + 256 * RdA(vec + 1), !.K = 0, !.S = IF em THEN s3 ELSE s4,
                           !.P = SetF(SetF(s.P, FD, 0), FI, 1)], wr, {})
     [] mn = "stp" -> Res([nx EXCEPT !.stp = 1], <<>>, {"PC"})
     [] mn = "wai" -> Res(nx, <<>>, {"PC"})
     [] OTHER -> Res(nx, <<>>, {})          \* nop, wdm
+
+\* ---- a Step that first dispatches a pending IRQ (as implemented, in both modes alike): push K, PC, P; I := 1, D := 0,
+\* K := 0, PC := [$00FFEE]; then the instruction at the handler's first address executes within the same Step.
+\* (Named differences from the WDC model in emulation mode: no separate $FFFE vector, the bank byte is pushed.)
+StepIrq(Rd(_), s, dv) ==
+  LET a1 == SDe(s.S, s.E)  a2 == SDe(a1, s.E)  a3 == SDe(a2, s.E)  a4 == SDe(a3, s.E)
+      wr0 == << <<s.S, s.K>>, <<a1, Hi(s.PC)>>, <<a2, Lo(s.PC)>>, <<a3, s.P>> >>
+      Rd1(a) == IF \E i \in 1..4 : wr0[i][1] = a
+                THEN wr0[CHOOSE i \in 1..4 : wr0[i][1] = a /\ \A j \in 1..4 : wr0[j][1] = a => j <= i][2] ELSE Rd(a)
+      sd == [s EXCEPT !.PC = Rd1(65518) + 256 * Rd1(65519), !.K = 0, !.S = a4, !.P = SetF(SetF(s.P, FD, 0), FI, 1)]
+      r == Step(Rd1, sd, dv)
+  IN [post |-> r.post, wr |-> wr0 \o r.wr, free |-> r.free]
 
 \* ---- comparison of an observed outcome with the model
 WrMap(wr) == [a \in { wr[i][1] : i \in 1..Len(wr) } |->
